@@ -130,15 +130,29 @@ func expand(c *core.Ctx, fx *tokreplay.Fixture, scs []*tokreplay.Scn) []job {
 	add := func(sc *tokreplay.Scn, v tokreplay.Variant) { jobs = append(jobs, job{Sc: sc, V: v}) }
 	th := c.Thorough()
 	rng := c.Rand("c11-expand")
+	// number spellings / extra claims (Variant.Alt of the time kinds): all in thorough
+	spell := []int{0}
+	if th {
+		spell = []int{0, 1, 2, 3}
+	}
+	// the honest credential of the wire deviations: k1 (quick), also k2 and POOL (thorough)
+	bases := []int{0}
+	if th {
+		bases = []int{0, 1, 2}
+	}
 	alts := func(sc *tokreplay.Scn, n, quick int) {
 		for _, a := range sample(c, "alt/"+sc.Key(), n, quick) {
-			add(sc, tokreplay.Variant{Alt: a, Idx: rng.Intn(1 << 16), Bit: rng.Intn(8)})
+			for _, b := range bases {
+				add(sc, tokreplay.Variant{Alt: a, Idx: rng.Intn(1 << 16), Bit: rng.Intn(8), Base: b})
+			}
 		}
 	}
 	deltas := map[string][]int64{
 		"exp_past": {10, 5, 60, 250, 86400 * 400}, "exp_near": {60, 30, 3600}, "exp_now": {0},
 		"iat_old": {10, 5, 60, 86400}, "iat_near": {60, 30, 300}, "iat_limit": {0}, "iat_future": {60, 3600},
+		"time_both_bad": {10, 5, 3600}, "no_exp": {0}, "no_iat": {0}, "nbf_future": {60, 3600},
 	}
+
 	nVerifyBulk := 0
 	for _, sc := range scs {
 		kind := sc.Kind
@@ -151,6 +165,9 @@ func expand(c *core.Ctx, fx *tokreplay.Fixture, scs []*tokreplay.Scn) []job {
 		switch kind {
 		case "tok_hdr", "hdr":
 			fieldLen, tokenKind = fx.SegLen[0], true
+			if th {
+				fieldLen += 4 // headers naming "POOL" are a few characters longer than the k1 header
+			}
 		case "tok_pay", "pay":
 			fieldLen, tokenKind = fx.SegLen[1], true
 		case "tok_sig", "sig":
@@ -197,7 +214,14 @@ func expand(c *core.Ctx, fx *tokreplay.Fixture, scs []*tokreplay.Scn) []job {
 		case sc.Mode == "verify":
 			if d, ok := deltas[kind]; ok {
 				for _, x := range d {
-					add(sc, tokreplay.Variant{Delta: x})
+					for _, sp := range spell {
+						add(sc, tokreplay.Variant{Delta: x, Alt: sp})
+					}
+				}
+			} else if kind == "kid_path" {
+				n := len(fx.KidAlts(sc.Pos))
+				for a := 0; a < n && (th || a < 2); a++ {
+					add(sc, tokreplay.Variant{Alt: a})
 				}
 			} else {
 				n := map[string]int{"none": 4, "pool": 2, "otherkey": 2, "unknownkid": 15, "sig_same": 6, "space": 4}[kind]
@@ -217,11 +241,14 @@ func expand(c *core.Ctx, fx *tokreplay.Fixture, scs []*tokreplay.Scn) []job {
 			for _, i := range sample(c, "pos/"+sc.Key(), n, 3) {
 				switch {
 				case th && (tokenKind || kind == "mac_wrong"):
-					for b := 0; b < 8; b++ {
-						add(sc, tokreplay.Variant{Idx: i, Bit: b, Edit: "flip"})
-					}
-					if tokenKind {
-						add(sc, tokreplay.Variant{Idx: i, Bit: rng.Intn(63), Edit: "sub"})
+					// every bit, for an honest credential under each kind of held key
+					for _, base := range bases {
+						for b := 0; b < 8; b++ {
+							add(sc, tokreplay.Variant{Idx: i, Bit: b, Edit: "flip", Base: base})
+						}
+						if tokenKind {
+							add(sc, tokreplay.Variant{Idx: i, Bit: rng.Intn(63), Edit: "sub", Base: base})
+						}
 					}
 				case th:
 					// nonces and their echoes: every bit of all 256 bytes
@@ -266,13 +293,22 @@ func expand(c *core.Ctx, fx *tokreplay.Fixture, scs []*tokreplay.Scn) []job {
 			alts(sc, 3, 3)
 		case kind == "tok_unknownkid":
 			alts(sc, 5, 2)
+		case kind == "kid_path":
+			// every concrete key id of the shape (thorough) / the first two (quick):
+			// the ends of the list are the plainest spellings
+			n := len(fx.KidAlts(sc.Pos))
+			for a := 0; a < n && (th || a < 2); a++ {
+				add(sc, tokreplay.Variant{Alt: a, Idx: rng.Intn(1 << 16)})
+			}
 		default:
 			if d, ok := deltas[kind]; ok {
 				if !th && len(d) > 2 {
 					d = d[:2]
 				}
 				for _, x := range d {
-					add(sc, tokreplay.Variant{Delta: x, Idx: rng.Intn(1 << 16)})
+					for _, sp := range spell {
+						add(sc, tokreplay.Variant{Delta: x, Idx: rng.Intn(1 << 16), Alt: sp})
+					}
 				}
 				break
 			}
@@ -281,7 +317,9 @@ func expand(c *core.Ctx, fx *tokreplay.Fixture, scs []*tokreplay.Scn) []job {
 				rep = 3
 			}
 			for k := 0; k < rep; k++ {
-				add(sc, tokreplay.Variant{Idx: rng.Intn(1 << 16), Alt: k})
+				for _, b := range bases {
+					add(sc, tokreplay.Variant{Idx: rng.Intn(1 << 16), Alt: k, Base: b})
+				}
 			}
 		}
 	}
@@ -324,7 +362,7 @@ func runJob(fx *tokreplay.Fixture, model tokreplay.Model, j job, st *stats) *dif
 			got = "accept-other-subject"
 		}
 		return &diff{
-			sig: map[string]string{"spec": "TokenAuth", "role": "verify", "dev": eff.Kind, "got": got},
+			sig: withShape(eff, map[string]string{"spec": "TokenAuth", "role": "verify", "dev": eff.Kind, "got": got}),
 			detail: fmt.Sprintf("VerifyIDToken on a %s token (%s; reference: %s, %s): expected %s, real code: %s %s subject=%q; token=%q",
 				eff.Kind, posText(sc), r.Oracle.Want, r.Oracle.Why, eff.Expect(), r.Got, r.Err, r.Subject, conc.Token),
 			scn: rs}
@@ -372,13 +410,24 @@ func runJob(fx *tokreplay.Fixture, model tokreplay.Model, j job, st *stats) *dif
 		}
 	}
 	return &diff{
-		sig: map[string]string{"spec": "TokenAuth", "role": eff.Role, "dev": eff.Kind, "msg": fmt.Sprint(eff.Msg), "via": eff.Via, "got": got},
+		sig: withShape(eff, map[string]string{"spec": "TokenAuth", "role": eff.Role, "dev": eff.Kind, "msg": fmt.Sprint(eff.Msg), "via": eff.Via, "got": got}),
 		detail: fmt.Sprintf("deviation %s (message %d, %s, route %s) aimed at the %s: the statement allows { %s }; real endpoints: %s (server user %q); client error: %q; server error: %q; client-finished-by-relay=%v %s",
 			eff.Kind, eff.Msg, posText(sc), eff.Via, eff.Role, strings.Join(allowed, " | "), o.Out().String(), o.User, o.CErr, o.SErr, o.Injected, o.Note),
 		scn: rs}
 }
 
+// withShape adds the abstract key-id shape to the signature of the kid-path deviations.
+func withShape(sc *tokreplay.Scn, sig map[string]string) map[string]string {
+	if sc.Kind == "kid_path" || sc.Kind == "v_kid_path" {
+		sig["kid"] = sc.Pos
+	}
+	return sig
+}
+
 func posText(sc *tokreplay.Scn) string {
+	if sc.Kind == "kid_path" || sc.Kind == "v_kid_path" {
+		return "key id shape " + sc.Pos
+	}
 	if sc.Pos == "-" || sc.Pos == "" {
 		return "no position"
 	}
